@@ -649,7 +649,7 @@ def gen_unpacks(tier, rnd):
           ("star", N(2)), ("star", ("seq", "KList", [])), ("star", ("seq", "KTuple", [])),
           ("star", ("dict", [("kv", F0, C(2))])), ("star", ("seq", "KSet", [F0])),
           ("star", ("dict", [("kv", C(1), C(2)), ("dstar", N(1))])), ("star", ("seq", "KList", [("star", N(1))])),
-          ("star", ("bi", "BList", [N(1)]))]
+          ("star", ("bi", "BList", [N(1)])), ("star", ("seq", "KSet", [("star", N(1))]))]
     out = []
     for k in ("KList", "KTuple", "KSet"):
         for n in (1, 2):
@@ -811,6 +811,9 @@ def oracle_case(mods, rid, source, envs):
 
 
 def check(run, mods, wd, rnd) -> dict:
+    import time
+    t0 = time.time()
+    timings = {}
     hist = Counter()
     tier = run.tier
     files, shards = [], []
@@ -832,6 +835,7 @@ def check(run, mods, wd, rnd) -> dict:
             hist[f"{rid}:{'fired' if cands else 'silent'}"] += 1
             if cands:
                 fired_sources.setdefault((rid, source), term)
+    timings["impl_yields_s"] = round(time.time() - t0, 1)
     crashes = [c for c in all_cases if c[2] and c[2][0][0] == "crash"]
     items = [c for c in all_cases if not (c[2] and c[2][0][0] == "crash")]
     SH = 400
@@ -879,7 +883,9 @@ def check(run, mods, wd, rnd) -> dict:
         files.append(p)
         shards.append(("sem", shard))
 
+    timings["cpython_sem_s"] = round(time.time() - t0, 1)
     results = common.run_case_files(files)
+    timings["coq_cases_s"] = round(time.time() - t0, 1)
     disagreements, sem_bad, sem_gap = [], [], 0
     for p, (kind, shard) in zip(files, shards):
         rc, out = results[p]
@@ -922,6 +928,7 @@ def check(run, mods, wd, rnd) -> dict:
         if f.kind == "finding" and f.fields.get("sig") in SIGS and f.id not in reproduced:
             common.log(f"note: known finding {f.id} no longer reproduces")
 
+    timings["oracle_s"] = round(time.time() - t0, 1)
     # ---- verdicts
     seen_sites = Counter()
     for site, f in failures:
@@ -949,7 +956,7 @@ def check(run, mods, wd, rnd) -> dict:
         "modelled_rules": [".".join(v) for v in RULES.values()],
         "histogram": dict(hist), "semantic_cases": len(sem), "semantic_gaps": sem_gap,
         "semantic_mismatches": len(sem_bad), "correspondence_disagreements": len(disagreements),
-        "oracle_failures": len(failures), "skipped_unsupported": skipped,
+        "oracle_failures": len(failures), "skipped_unsupported": skipped, "timings_cumulative": timings,
     }
 
 
